@@ -22,8 +22,11 @@ package main
 //  keep       a current entry that is reusable on its own (equal to the desired entry
 //             at its dir, or needed synthetic) and not beneath a changed entry is Keep
 //  rootfs     x-snapd.origin=rootfs entries are always Keep
-//  unmount    parent never unmounted before a child mounted after it (mount order is
-//             tracked by the harness over the whole history)
+//  unmount    parent never unmounted before a child mounted after it, beneath it or stacked
+//             on its mount point (mount order is tracked by the harness over the history)
+//  alive      nothing is kept that was mounted after, and beneath or on, an entry that is
+//             detached in the same update; the saved profile records no entry that is
+//             gone or duplicated by the harness's own account of what is mounted
 //  mount      same origin: containing dir first; overname mounts before all others
 //  recording  performed changes == planned changes; saved profile == kept + reported
 //             synthetic + successfully mounted (as a multiset; the saved order is only
@@ -189,6 +192,8 @@ type c28Live struct {
 type c28PlanInfo struct {
 	keeps, unmounts, mounts int
 	nested                  bool
+	changedAboveMimic       bool              // a changed regular entry has a still needed synthetic entry beneath it
+	staleKept               map[string]string // kept entries already reported as going away with a detached ancestor -> fingerprint
 }
 
 func c28CheckPlan(curLive []c28Live, desRaw []osutil.MountEntry, plan []*Change) (info c28PlanInfo, out []error) {
@@ -231,9 +236,14 @@ func c28CheckPlan(curLive []c28Live, desRaw []osutil.MountEntry, plan []*Change)
 		}
 		return false
 	}
+	// onTop: entry i was mounted later than entry j, beneath it or stacked on its very mount
+	// point, i.e. it is a descendant of j in the mount tree and goes away with it
+	onTop := func(i, j int) bool {
+		return i != j && curLive[i].seq > curLive[j].seq && (cur[i].Dir == cur[j].Dir || c28Beneath(cur[i].Dir, cur[j].Dir))
+	}
 	beneathChanged := func(i int) (bool, string) {
 		for j := range cur {
-			if j != i && !reusableOwn(&cur[j]) && c28Beneath(cur[i].Dir, cur[j].Dir) {
+			if j != i && !reusableOwn(&cur[j]) && (c28Beneath(cur[i].Dir, cur[j].Dir) || onTop(i, j)) {
 				return true, cur[j].Dir
 			}
 		}
@@ -366,7 +376,7 @@ func c28CheckPlan(curLive []c28Live, desRaw []osutil.MountEntry, plan []*Change)
 				continue
 			}
 			// i parent, j child mounted later
-			if c28Beneath(cur[j].Dir, cur[i].Dir) && curLive[j].seq > curLive[i].seq && pos[i] < pos[j] {
+			if onTop(j, i) && pos[i] < pos[j] {
 				if i > j {
 					// the profile lists the child before the parent although the parent was mounted
 					// first, and the planner unmounted in reverse profile order as documented
@@ -374,6 +384,52 @@ func c28CheckPlan(curLive []c28Live, desRaw []osutil.MountEntry, plan []*Change)
 				} else {
 					bad("%s is unmounted before %s which was mounted beneath it later", cur[i], cur[j])
 				}
+			}
+		}
+	}
+
+	// kept entries stay mounted: nothing may be kept beneath an entry that is detached in
+	// this update if it was mounted after that entry (it goes away with it)
+	for i := range cur {
+		for j := range cur {
+			if action[i] != actKeep || action[j] != actUnmount || !plan[pos[j]].Entry.XSnapdDetach() {
+				continue
+			}
+			if onTop(i, j) {
+				stacked := ""
+				for k := range cur {
+					if k != j && cur[k].Dir == cur[j].Dir && reusableOwn(&cur[k]) {
+						stacked = cur[k].String()
+					}
+				}
+				var e error
+				switch {
+				case stacked != "":
+					// a reusable entry on the very mount point of the changed entry ends the
+					// "beneath a changed entry" stretch of the sorted current profile
+					e = verifkit.Knownf("F-C28-5", "%s is kept although it was mounted beneath %s, which is detached in this update (the reusable entry %s shares the mount point of the changed one)", cur[i], cur[j], stacked)
+				case (cur[j].XSnapdOrigin() == "overname") != (cur[i].XSnapdOrigin() == "overname"):
+					// overname entries are sorted ahead of all others when reuse is computed, which
+					// separates a parent from the entries beneath it
+					e = verifkit.Knownf("F-C28-6", "%s is kept although it was mounted beneath %s, which is detached in this update (exactly one of them has overname origin)", cur[i], cur[j])
+				default:
+					e = verifkit.Violatef("%s is kept although it was mounted beneath %s, which is detached in this update", cur[i], cur[j])
+				}
+				out = append(out, e)
+				if info.staleKept == nil {
+					info.staleKept = map[string]string{}
+				}
+				info.staleKept[cur[i].String()] = e.(*verifkit.Violation).Fingerprint
+			}
+		}
+	}
+	for j := range cur {
+		if reusableOwn(&cur[j]) || cur[j].XSnapdSynthetic() {
+			continue
+		}
+		for i := range cur {
+			if neededSynth(&cur[i]) && c28Beneath(cur[i].Dir, cur[j].Dir) {
+				info.changedAboveMimic = true
 			}
 		}
 	}
@@ -444,9 +500,73 @@ func (c *c28Ctx) SaveCurrentProfile(p *osutil.MountProfile) error {
 var errC28Injected = errors.New("injected perform failure")
 
 type c28Perf struct {
-	ch    Change
-	synth []osutil.MountEntry
-	err   error
+	ch       Change
+	synth    []osutil.MountEntry
+	synthSeq int // sequence number of synth[0]
+	seq      int // sequence number of a successful mount
+	err      error
+}
+
+// c28Truth is the harness's own account of what is mounted: every successful mount
+// and every reported synthetic entry is added; an unmount removes its entry and, when
+// it detaches, everything that was mounted beneath it later.
+type c28Truth struct {
+	live  []c28Live
+	cause map[string]osutil.MountEntry // entry text -> detached ancestor that took it away in this step
+}
+
+func (t *c28Truth) add(e osutil.MountEntry, seq int) {
+	t.live = append(t.live, c28Live{c28Clean(e), seq})
+}
+
+func (t *c28Truth) hasMimic(dir string) bool {
+	for _, l := range t.live {
+		if l.e.Dir == dir && l.e.Type == "tmpfs" && l.e.XSnapdSynthetic() {
+			return true
+		}
+	}
+	return false
+}
+
+func (t *c28Truth) unmount(e osutil.MountEntry) {
+	keys := []string{e.String()}
+	if st, ok := c28StripDetach(e); ok {
+		keys = append(keys, st.String())
+	}
+	at := -1
+	for i := len(t.live) - 1; i >= 0 && at < 0; i-- {
+		for _, k := range keys {
+			if t.live[i].e.String() == k {
+				at = i
+			}
+		}
+	}
+	if at < 0 {
+		return // already gone together with a detached ancestor
+	}
+	gone := t.live[at]
+	var rest []c28Live
+	for i, l := range t.live {
+		if i == at {
+			continue
+		}
+		if e.XSnapdDetach() && l.seq > gone.seq && (l.e.Dir == gone.e.Dir || c28Beneath(l.e.Dir, gone.e.Dir)) {
+			t.cause[l.e.String()] = gone.e
+			continue
+		}
+		rest = append(rest, l)
+	}
+	t.live = rest
+}
+
+func (t *c28Truth) count(key string) int {
+	n := 0
+	for _, l := range t.live {
+		if l.e.String() == key {
+			n++
+		}
+	}
+	return n
 }
 
 func c28TargetExists(e *osutil.MountEntry) bool {
@@ -570,11 +690,13 @@ func c28Run(c c28Case) (o verifkit.Outcome, err error) {
 	}
 
 	var live []c28Live
+	truth := &c28Truth{}
 	seq := 0
 	curText := ""
 	if c.Rootfs {
 		curText = "tmpfs / tmpfs x-snapd.origin=rootfs 0 0\n"
 		live = append(live, c28Live{osutil.MountEntry{Name: "tmpfs", Dir: "/", Type: "tmpfs", Options: []string{"x-snapd.origin=rootfs"}}, seq})
+		truth.add(live[0].e, seq)
 		seq++
 		labels["rootfs"] = true
 	}
@@ -620,6 +742,9 @@ func c28Run(c c28Case) (o verifkit.Outcome, err error) {
 		if info.nested {
 			labels["nested"] = true
 		}
+		if info.changedAboveMimic {
+			labels["changed-parent-above-mimic"] = true
+		}
 		if info.keeps > 0 && info.unmounts == 0 && info.mounts == 0 {
 			labels["pure-keep-step"] = true
 		}
@@ -642,12 +767,7 @@ func c28Run(c c28Case) (o verifkit.Outcome, err error) {
 				mimic[m%n] = true
 			}
 		}
-		liveMimic := map[string]bool{}
-		for _, e := range cur.Entries {
-			if e.XSnapdSynthetic() && e.Type == "tmpfs" {
-				liveMimic[filepath.Clean(e.Dir)] = true
-			}
-		}
+		truth.cause = map[string]osutil.MountEntry{}
 		var log []c28Perf
 		changePerform = func(ch *Change, as *Assumptions) ([]*Change, error) {
 			idx := len(log)
@@ -655,12 +775,14 @@ func c28Run(c c28Case) (o verifkit.Outcome, err error) {
 			var synth []*Change
 			if ch.Action == Mount && ch.Entry.XSnapdKind() != "ensure-dir" && (st.RO || mimic[idx]) && !c28TargetExists(&ch.Entry) {
 				md := c28FirstExistingDir(filepath.Dir(ch.Entry.Dir))
-				if !liveMimic[md] {
-					liveMimic[md] = true
+				if !truth.hasMimic(md) {
+					p.synthSeq = seq
 					for _, se := range c28Mimic(md, ch.Entry.XSnapdEntryID()) {
 						se := se
 						p.synth = append(p.synth, se)
 						synth = append(synth, &Change{Action: Mount, Entry: se})
+						truth.add(se, seq)
+						seq++
 					}
 					labels["mimic"] = true
 				}
@@ -669,8 +791,15 @@ func c28Run(c c28Case) (o verifkit.Outcome, err error) {
 				p.err = errC28Injected
 				labels["perform-failure"] = true
 			}
-			if ch.Action == Unmount && p.err == nil && ch.Entry.XSnapdSynthetic() && ch.Entry.Type == "tmpfs" {
-				delete(liveMimic, ch.Entry.Dir)
+			if p.err == nil {
+				switch ch.Action {
+				case Mount:
+					p.seq = seq
+					truth.add(ch.Entry, seq)
+					seq++
+				case Unmount:
+					truth.unmount(ch.Entry)
+				}
 			}
 			if st.Mat && p.err == nil {
 				c28Materialize(ch)
@@ -724,9 +853,8 @@ func c28Run(c c28Case) (o verifkit.Outcome, err error) {
 		var next []c28Live
 		used := make([]bool, len(live))
 		for _, p := range log {
-			for _, se := range p.synth {
-				next = append(next, c28Live{se, seq})
-				seq++
+			for k, se := range p.synth {
+				next = append(next, c28Live{se, p.synthSeq + k})
 			}
 			if p.err != nil {
 				continue
@@ -747,8 +875,7 @@ func c28Run(c c28Case) (o verifkit.Outcome, err error) {
 				}
 				next = append(next, c28Live{p.ch.Entry, s})
 			case Mount:
-				next = append(next, c28Live{p.ch.Entry, seq})
-				seq++
+				next = append(next, c28Live{p.ch.Entry, p.seq})
 			}
 		}
 		// The statement fixes which entries are recorded, not their order: compare as
@@ -795,6 +922,36 @@ func c28Run(c c28Case) (o verifkit.Outcome, err error) {
 			break
 		}
 		next = reordered
+		// nothing stale or duplicated: every recorded entry is still mounted by the harness's
+		// own bookkeeping (entries whose unmount failed may be mounted without being recorded)
+		seen := map[string]int{}
+		stale := false
+		for _, l := range next {
+			k := c28Clean(l.e).String()
+			seen[k]++
+			if seen[k] <= truth.count(k) {
+				continue
+			}
+			stale = true
+			msg := fmt.Sprintf("step %d: the saved profile records %s (occurrence %d) but only %d such mount(s) exist", si, strings.Replace(k, root, "", -1), seen[k], truth.count(k))
+			if anc, ok := truth.cause[k]; ok {
+				msg += fmt.Sprintf(": it went away when %s was detached", strings.Replace(anc.String(), root, "", -1))
+			}
+			if fp, ok := info.staleKept[k]; ok {
+				if fp != "" {
+					note([]error{verifkit.Knownf(fp, "%s\nsaved:\n%s", msg, strings.Replace(*ctx.saved, root, "", -1))})
+				}
+				continue // reported by the plan oracle already
+			}
+			note([]error{verifkit.Violatef("%s\nsaved:\n%s", msg, strings.Replace(*ctx.saved, root, "", -1))})
+		}
+		if stale {
+			// resynchronise so that one defect is not reported again in every later step
+			truth.live = nil
+			for _, l := range next {
+				truth.add(l.e, l.seq)
+			}
+		}
 		live = next
 		curText = *ctx.saved
 	}
@@ -861,7 +1018,91 @@ func c28GenEnt(t *rapid.T, pool []string) c28Ent {
 	return e
 }
 
+// c28GenChangedParent: a parent mount with one or two children beneath it whose mount
+// points do not exist, so that mounting them reports a writable mimic beneath the parent;
+// then the parent changes (source, kind/options or origin) while the children stay.
+func c28GenChangedParent(t *rapid.T) c28Case {
+	var c c28Case
+	base := rapid.SampledFrom([]string{"a", "b", "a/bc", "d/a", "bc/b"}).Draw(t, "base")
+	parent := c28Ent{P: base,
+		K: rapid.SampledFrom([]string{"bind", "bind", "rbind", "tmpfs"}).Draw(t, "pkind"),
+		O: rapid.SampledFrom([]string{"", "", "", "layout", "overname"}).Draw(t, "porigin"),
+		S: rapid.IntRange(0, 3).Draw(t, "psrc")}
+	under := base
+	if rapid.Bool().Draw(t, "deeper") { // the mimic is reported one level below the parent
+		under = base + "/" + rapid.SampledFrom(c28Segs).Draw(t, "mid")
+		c.Tree = append(c.Tree, c28Node{P: under, T: "d"})
+	} else if rapid.Bool().Draw(t, "baseexists") {
+		c.Tree = append(c.Tree, c28Node{P: base, T: "d"})
+	}
+	for _, sib := range rapid.SliceOfNDistinct(rapid.SampledFrom([]string{"s1", "s2", "f1", "l1"}), 0, 3, func(s string) string { return s }).Draw(t, "siblings") {
+		c.Tree = append(c.Tree, c28Node{P: under + "/" + sib, T: map[byte]string{'s': "d", 'f': "f", 'l': "l"}[sib[0]]})
+	}
+	c.Rootfs = rapid.IntRange(0, 3).Draw(t, "rootfs") == 0
+	var children []c28Ent
+	names := rapid.SliceOfNDistinct(rapid.SampledFrom([]string{"x", "b", "bc", "x/y"}), 1, 2, func(s string) string { return s }).Draw(t, "children")
+	for _, n := range names {
+		children = append(children, c28Ent{P: under + "/" + n,
+			K:  rapid.SampledFrom([]string{"bind", "rbind", "tmpfs", "file", "symlink"}).Draw(t, "ckind"),
+			O:  rapid.SampledFrom([]string{"layout", "layout", "layout", ""}).Draw(t, "corigin"),
+			S:  rapid.IntRange(0, 3).Draw(t, "csrc"),
+			ID: rapid.IntRange(0, 3).Draw(t, "cid") == 0})
+	}
+	var extra []c28Ent
+	for i, n := 0, rapid.IntRange(0, 2).Draw(t, "nextra"); i < n; i++ {
+		extra = append(extra, c28GenEnt(t, []string{base, under}))
+	}
+	all := func(p c28Ent, kids []c28Ent) []c28Ent {
+		l := append(append([]c28Ent{p}, kids...), extra...)
+		if rapid.Bool().Draw(t, "shuffle") {
+			l = rapid.Permutation(l).Draw(t, "perm")
+		}
+		return c28Normalize(l)
+	}
+	mimicAll := []int{0, 1, 2, 3, 4, 5, 6, 7, 8, 9, 10, 11}
+	step := func(d []c28Ent) c28Step {
+		st := c28Step{Desired: d, Mat: rapid.IntRange(0, 5).Draw(t, "mat") != 0}
+		if rapid.IntRange(0, 3).Draw(t, "mimicmode") == 0 {
+			st.Mimic = mimicAll
+		} else {
+			st.RO = true
+		}
+		return st
+	}
+	c.Steps = append(c.Steps, step(all(parent, children)))
+	if rapid.IntRange(0, 3).Draw(t, "keepround") == 0 {
+		c.Steps = append(c.Steps, step(all(parent, children)))
+	}
+	changed := parent
+	switch rapid.IntRange(0, 3).Draw(t, "change") {
+	case 0, 1: // content provider refresh: same mount point, other source
+		changed.S = (parent.S + 1 + rapid.IntRange(0, 2).Draw(t, "newsrc")) % 4
+	case 2: // other kind, hence other options/type
+		changed.K = map[string]string{"bind": "rbind", "rbind": "tmpfs", "tmpfs": "bind"}[parent.K]
+	case 3: // other origin
+		changed.O = map[string]string{"": "layout", "layout": "", "overname": ""}[parent.O]
+	}
+	kids := children
+	if len(kids) == 2 && rapid.IntRange(0, 3).Draw(t, "dropchild") == 0 {
+		kids = kids[:1]
+	}
+	c.Steps = append(c.Steps, step(all(changed, kids)))
+	switch rapid.IntRange(0, 3).Draw(t, "tail") {
+	case 0:
+		c.Steps = append(c.Steps, step(all(changed, kids)))
+	case 1:
+		c.Steps = append(c.Steps, step(nil))
+	case 2:
+		changed.S = (changed.S + 1) % 4
+		c.Steps = append(c.Steps, step(all(changed, children)))
+	}
+	return c
+}
+
 func c28Gen(t *rapid.T) c28Case {
+	if rapid.IntRange(0, 3).Draw(t, "scenario") == 0 {
+		return c28GenChangedParent(t)
+	}
 	var c c28Case
 	var pool []string
 	nTree := rapid.IntRange(0, 6).Draw(t, "ntree")
@@ -930,12 +1171,13 @@ func TestVerifC28History(t *testing.T) {
 		Gen: c28Gen,
 		Run: c28Run,
 		Floors: map[string]float64{
-			"keep+unmount+mount": 0.30,
-			"nested":             0.50,
-			"mimic":              0.15,
-			"perform-failure":    0.05,
-			"pure-keep-step":     0.10,
-			"rootfs":             0.10,
+			"keep+unmount+mount":         0.30,
+			"nested":                     0.50,
+			"mimic":                      0.15,
+			"perform-failure":            0.05,
+			"pure-keep-step":             0.10,
+			"rootfs":                     0.10,
+			"changed-parent-above-mimic": 0.10,
 		},
 		NonTrivialFloor: 0.30,
 	})
